@@ -1,14 +1,18 @@
 """C09 — the built pipeline graph routes data exactly as the configuration says."""
+import hashlib
+import os
+import shutil
+
 import vlib
 
 
 class P(vlib.Prop):
     pid = "C09"
-    coq_dirs = ["Common", "C09"]
+    coq_dirs = ["Common", "C09", "Generated"]
     coq_targets = ["C09/Properties.vo", "C09/Witness.vo", "C09/Harness.vo"]
     properties_module = "C09.Properties"
     properties_file = "C09/Properties.v"
-    instance_obligations = []
+    instance_obligations = ["tie_node_kinds", "tie_edge_targets_consume", "tie_supported_table", "tie_undefined_is_zero"]
     harness_module = "C09.Harness"
     case_type = "wcfg * wobs"
     shard = 40
@@ -35,6 +39,7 @@ class P(vlib.Prop):
             "A case is non-trivial when the build fails or more than 3 components are created; distinct = distinct case terms.")
     trusted_base = [
         "Coq 8.16.1 kernel + vm_compute (coqc); no axioms (Print Assumptions: closed under the global context)",
+        "translator T1 (tools/go2coq: method sets of the six node types, component.StabilityLevel) and the table dump harness/C09/dump_test.go (connectorStability run on probe factories), re-run on every check",
         "hand-written model coq/C09/Model.v of createNodes/createEdges/buildComponents/cycleErr and of the data flow along graph edges, tied by the correspondence run",
         "Go harness harness/C09/graph_test.go (instrumented components, in-package inspection of node -> instance) + go test -overlay; Go toolchain",
         "gonum simple.DirectedGraph / topo.Sort / DirectedCyclesIn (library; cycle detection is re-done in the model, the reported cycle is validated against the model's edges)",
@@ -45,3 +50,29 @@ class P(vlib.Prop):
         "test connectors forward to every downstream pipeline (router fan-out, or one Consumer(pipelineID) call per offered pipeline); real connectors' own routing decisions are outside the property",
         "fan-out consumers deliver to every consumer (cloning for mutating ones): C06's subject, exercised here with mutating processors/connectors",
     ]
+
+    def translate(self, ctx):
+        """T1 (tools/go2coq): method sets of the six node types, component.StabilityLevel constants.
+        Table dump by running the current code: the graph of connectorStability over probe factories."""
+        here = os.path.join(vlib.VERIF, "props", "C09")
+        vlib.go2coq(ctx, "service", os.path.join(here, "t1_nodes.json"), "C09Nodes")
+        vlib.go2coq(ctx, "component", os.path.join(here, "t1_levels.json"), "C09Levels")
+        tmp = os.path.join(ctx.work, "C09StabilityTable.v.new")
+        if os.path.exists(tmp):
+            os.remove(tmp)
+        h = vlib.Harness("dump", "service", "./internal/graph/", {"zz_verif_c09_dump_test.go": "C09/dump_test.go"},
+                         "^TestVerifC09Dump$", "graph", timeout=600, extra_env={"VERIF_C09_DUMP_OUT": tmp})
+        cases, oracle, stats, err = vlib.run_harness(ctx, h)
+        if err or not os.path.exists(tmp):
+            raise vlib.Broken("translator (connectorStability table dump) fails on the current tree: %s"
+                              % (err.what if err else "no output"), err.detail if err else "")
+        new = open(tmp).read()
+        dst = os.path.join(vlib.COQ, "Generated", "C09StabilityTable.v")
+        if not os.path.exists(dst) or open(dst).read() != new:
+            with vlib.PropLock("C09"):
+                shutil.copyfile(tmp, dst)
+        ctx.translator_manifests.append({
+            "file": "service/internal/graph/graph.go connectorStability (graph observed by running it on probe factories, go test -overlay)",
+            "lines": None, "sha256": hashlib.sha256(new.encode()).hexdigest(),
+            "defines": "Generated/C09StabilityTable.v: C09StabilityTable (%d rows)" % stats.get("stability_rows", 0),
+            "params": None})
